@@ -261,6 +261,24 @@ class C18(Check):
                 except Exception as ex:
                     out.fail("C18.eqhash", "%s vs %s: == raised %s" % (k1, k2, type(ex).__name__), "eq-raised2")
                 out.stats["distinct_pairs"] += 1
+            # (2b) directed look-alikes: same name, version and bit length set, different KIND (a sealed structure whose lengths
+            # happen to be header + {0, 8, .., extent} vs a delimited structure of that extent): must be unequal both ways
+            n = 1 + scn["pick_seed"] % 20
+            def one(items, seal):
+                return {"roots": [{"dir": "w/d0/kt", "name": "kt", "defs": [{"name": "kt.Twin", "ver": [1, 0], "port": None, "ext": "dsdl", "dep": False,
+                        "secs": [{"union": False, "hdr": None, "items": items, "seal": seal}]}]}]}
+            try:
+                ka = Node(one([["f", ["u", 24, "s"], "a"], ["f", ["var", ["u", 8, "s"], n], "b"]], "sealed"))
+                nodes.append(ka)
+                kb = Node(one([["f", ["arr", ["u", 8, "s"], n], "payload"]], 8 * n))
+                nodes.append(kb)
+                ta, tb = ka.types["kt.Twin.1.0"], kb.types["kt.Twin.1.0"]
+                same_bls = ta.bit_length_set == tb.bit_length_set and set(ta.bit_length_set) == set(tb.bit_length_set)
+                out.stats["kind_lookalike_pairs"] += 1
+                if same_bls and type(ta) is not type(tb) and ((ta == tb) or (tb == ta)):
+                    out.fail("C18.distinct", "a sealed structure and a delimited structure with the same name, version and bit length set %s compare equal (%s vs %s)" % (sorted(ta.bit_length_set)[:4], type(ta).__name__, type(tb).__name__), "distinct:kind-lookalike")
+            except NodeError:
+                pass
             # (3) pickle through a second interpreter with another hash seed
             picks = rng.sample(oa, min(len(oa), 14))
             for k, o in picks:
